@@ -460,6 +460,7 @@ def install():
                          rhobeg=K(float(run.options_ref["radius_init"])),
                          pen=K(self.penalty), best=int(self.best_index) + 1,
                          npt=int(self.models.npt), merit=KL(mer), mviol=KL(vio),
+                         mvhi=KL([v_ + 1e-8 * max(1.0, abs(v_)) for v_ in vio]),
                          mhi=KL([v + _merit_tol(self, mer) for v in mer]))
             except Exception as ex:  # pragma: no cover
                 run.emit("RecErr", what="Init:" + type(ex).__name__)
@@ -479,6 +480,7 @@ def install():
                          rhoend=K(float(run.options_ref["radius_final"])),
                          pen=K(self.penalty), best=int(self.best_index) + 1,
                          merit=KL(mer), mviol=KL(vio),
+                         mvhi=KL([v_ + 1e-8 * max(1.0, abs(v_)) for v_ in vio]),
                          mhi=KL([v + _merit_tol(self, mer) for v in mer]),
                          penok=bool(math.isfinite(self.penalty) and self.penalty >= 0.0))
             except Exception as ex:  # pragma: no cover
